@@ -157,7 +157,14 @@ def random_cases(draw):
         if op != "create":
             nk = 1 if op == "set_attr" else draw(st.integers(1, 3))
             o["data"] = {draw(st.sampled_from(KEYS)): draw(json_values) for _ in range(nk)}
+            if op in ("update", "create_data") and draw(st.integers(0, 2)) == 0:
+                # the caller passes the SAME dict object to several calls (e.g. a loop stamping one record on many Sids)
+                o["share"] = draw(st.integers(0, 1))
         ops.append(o)
+    shared = {}
+    for o in ops:
+        if "share" in o:
+            o["data"] = shared.setdefault(o["share"], o["data"])
     return {"sids": sids, "ops": ops, "fresh": draw(st.integers(0, 9)) == 0}
 
 
@@ -180,6 +187,7 @@ def evaluate(case) -> Outcome:
         p = pm.render(t, f) if t else None
         info.append({"s": s, "t": t, "f": f, "path": p})
     created = []           # (t, f) created explicitly
+    shared_objs = {}       # share id -> the one dict object the "caller" passes again and again
     data = {}              # sidecar class -> overlay dict
     last_written = None
     nontrivial = False
@@ -199,12 +207,16 @@ def evaluate(case) -> Outcome:
         before = tree.snapshot(root)
         op = o["op"]
         d = o.get("data") or {}
+        arg = dict(d)
+        if "share" in o:
+            arg = shared_objs.setdefault(o["share"], dict(d))
+            out.label("shared-dict-argument")
         if op == "create":
             ok, r = call(writer.create, s)
         elif op == "create_data":
-            ok, r = call(writer.create, s, data=dict(d))
+            ok, r = call(writer.create, s, data=arg)
         elif op == "update":
-            ok, r = call(writer.update, s, dict(d))
+            ok, r = call(writer.update, s, arg)
         elif op == "set":
             ok, r = call(lambda: writer.set(s, **dict(d)))
         else:
